@@ -19,6 +19,18 @@ CONFIG = {
     "C01": dict(wants=["any", "eom", "dmm", "local"], profiles=["mix", "eom", "dmm", "limits"],
                 quick=1000, thorough=20000, wrap_share=0.1,
                 lean_targets=["PulserModel", "Properties.C01"]),
+    "C09": dict(wants=["any", "eom", "dmm", "local"], profiles=["mix", "eom", "target", "dmm"],
+                quick=700, thorough=15000, wrap_share=0.3, p_invalid=0.3,
+                lean_targets=["PulserModel", "Properties.C09"]),
+    "C13": dict(wants=["any", "eom", "dmm", "local", "xy"], profiles=["mix", "eom", "target", "dmm"],
+                quick=900, thorough=15000, wrap_share=0.1, p_invalid=0.3,
+                lean_targets=["PulserModel", "Properties.C13"]),
+    "C03": dict(wants=["any", "eom", "dmm", "local"], profiles=["mix", "eom", "target", "dmm", "phase"],
+                quick=1000, thorough=20000, wrap_share=0.2,
+                lean_targets=["PulserModel", "Properties.C03"]),
+    "C10": dict(wants=["local", "any", "eom"], profiles=["target", "phase", "mix", "eom"],
+                quick=1000, thorough=20000, wrap_share=0.2,
+                lean_targets=["PulserModel", "Properties.C10"]),
     "C02": dict(wants=["any", "eom", "dmm", "local"], profiles=["mix", "eom", "target", "dmm"],
                 quick=1200, thorough=20000, wrap_share=0.2,
                 lean_targets=["PulserModel", "Properties.C02"]),
@@ -146,7 +158,8 @@ class SeqProperty:
         for h in range(n_hist):
             exact = rng.random() >= self.cfg.get("wrap_share", 0.2)
             spec = gen_device(rng, rng.choice(self.cfg["wants"]))
-            g = HistoryGen(rng, spec, exact=exact, profile=rng.choice(self.cfg["profiles"]))
+            g = HistoryGen(rng, spec, exact=exact, profile=rng.choice(self.cfg["profiles"]),
+                           p_invalid=self.cfg.get("p_invalid", 0.12))
             res = run_history(drv, spec, g, exact, self.monitors(), nops=rng.randrange(6, 32))
             handle(spec, res, exact, "generated")
             if violations and tier == "quick":
@@ -195,9 +208,11 @@ class SeqProperty:
             wall_s=timer.s(), violations=len(violations),
         )
         write_evidence(prop, ev)
-        for kid, n in known_hits.items():
-            kf = next(f for f in findings if f["id"] == kid)
-            print(f"KNOWN-FINDING: property={prop} {kf['what']} (hit {n}x)")
+        for kf in findings:
+            if kf.get("property") == prop and kf.get("status") == "known":
+                n = known_hits.get(kf["id"], 0)
+                print(f"KNOWN-FINDING: property={prop} [{kf['id']}] {kf['what']} "
+                      + (f"(reproduced {n}x in this run)" if n else "(listed; not reached by this run's histories)"))
         if violations:
             for v in violations:
                 p = write_replay(prop, v)
